@@ -302,7 +302,15 @@ fn run_hcvlen(job: &Job) {
     };
     let (mt, mp) = (offset_map(&RENAMINGS[0].1, seed), offset_map(&RENAMINGS[1].1, seed));
     let origin = || format!(" [length sweep n={} k={} {} layout, {}]", n, k, ["cyclic", "blocked"][layout], ["labels_true constant", "labels_pred constant", "both constant", "identical labellings"][mode]);
-    let out = hcv_case(&ci, &ki, &mt, &mp, &[(0, 3)], true, &origin);
+    // identity label maps for this variant, so that class 0 carries the label value 0
+    let signed = mc::choose(2) == 1;
+    let ident: [i64; 8] = [0, 1, 2, 3, 4, 5, 6, 7];
+    cases::SIGNED_ZEROS.with(|f| f.set(signed));
+    let out = if signed { hcv_case(&ci, &ki, &ident, &ident, &[(0, 3)], true, &origin) } else { hcv_case(&ci, &ki, &mt, &mp, &[(0, 3)], true, &origin) };
+    cases::SIGNED_ZEROS.with(|f| f.set(false));
+    if signed {
+        mc::count("hcv_length_sweep_signed_zero_labels");
+    }
     mc::count("hcv_length_sweep");
     if n > 64 {
         mc::count("hcv_length_sweep_n_above_64");
@@ -516,6 +524,7 @@ impl Harness for C15 {
             case_deadline_ms: 20_000,
             floors: vec![
                 ("hcv_length_sweep", 20_000),
+                ("hcv_length_sweep_signed_zero_labels", 10_000),
                 ("hcv_length_sweep_n_above_64", 10_000),
                 ("binary_pairs", 80_000),
                 ("binary_by_confusion_counts", 100_000),
@@ -546,7 +555,7 @@ impl Harness for C15 {
                 ("hcv_renamed", 1_000_000),
             ],
             bounds: json!({
-                "hcv_length_sweep": "every length n=1..200 x k=1..8 classes x {cyclic, blocked} layout x {labels_true constant, labels_pred constant, both constant, identical labellings} x 2 constant label values: homogeneity / completeness / V-measure (methods and free functions) against their definitions incl. the special value 1",
+                "hcv_length_sweep": "every length n=1..200 x k=1..8 classes x {cyclic, blocked} layout x {labels_true constant, labels_pred constant, both constant, identical labellings} x 2 constant label values x {plain labels, label 0 written alternately as 0.0 and -0.0}: homogeneity / completeness / V-measure (methods and free functions) against their definitions incl. the special value 1",
                 "binary_metrics": format!("accuracy, precision, recall, F-beta (beta in 1, 1/2, 2), f64 and f32: every pair of binary vectors of length 1..{}; every confusion-count vector (tp,fp,fn,tn) with sum n for n in {:?} x 3 layouts", bin_max, summarize(&conf_ns)),
                 "accuracy_multiclass": format!("every pair over 3 label values, length 1..{}", if t { 7 } else { 5 }),
                 "length_mismatch": format!("every ordered pair of different lengths from {:?} x 3 fill patterns x 7 pairwise metrics x f64/f32", MISMATCH_LENGTHS),
